@@ -301,6 +301,13 @@ type c20Stack struct {
 	accts  []*rig.Acct
 }
 
+// c20Accounts is the number of ordinary accounts of the instance (the largest batch names each of them once).
+const c20Accounts = 20
+
+// c20BatchSizes are the batch sizes tried as one departure each: around the number of processors of the worker (4), its
+// multiples, and beyond.
+var c20BatchSizes = []int{1, 3, 4, 5, 6, 7, 8, 9, 10, 12, 15, 16, 17, 20}
+
 func newC20Stack() (*c20Stack, error) {
 	c, err := rig.NewCluster(rig.ClusterOpts{IDs: []uint64{1}, ExtraPeers: map[uint64]string{2: rig.PeerName(2) + ":8002", 3: rig.PeerName(3) + ":8003"}})
 	if err != nil {
@@ -308,7 +315,7 @@ func newC20Stack() (*c20Stack, error) {
 	}
 	s := &c20Stack{c: c, node: c.Nodes[1], rig: c.Nodes[1].Rig}
 	r := s.rig
-	for i := 0; i < 3; i++ {
+	for i := 0; i < c20Accounts; i++ {
 		s.accts = append(s.accts, r.AddSymAccount("Wallet 1", fmt.Sprintf("acct-%d", i), "pass", true))
 	}
 	if s.signer, err = signerhandler.New(r.Ctx, signerhandler.WithSigner(r.Signer)); err != nil {
@@ -488,6 +495,36 @@ func c20Cases(tier string) ([]c20Case, []c20RPC, [][]c20Mut) {
 				ms = append(ms, c20Mut{Desc: fmt.Sprintf("%s.participants=signing_threshold=%d", r.Name, v), Set: func(m protoreflect.Message) {
 					g := m.Interface().(*pb.GenerateRequest)
 					g.Participants, g.SigningThreshold = v, v
+				}})
+			}
+		}
+		// Batches of well-formed entries of every listed size (one departure: the length of the list).
+		switch def.(type) {
+		case *pb.MultisignRequest:
+			for _, n := range c20BatchSizes {
+				n := n
+				ms = append(ms, c20Mut{Desc: fmt.Sprintf("%s.requests=%d well-formed entries", r.Name, n), Set: func(m protoreflect.Message) {
+					g := m.Interface().(*pb.MultisignRequest)
+					g.Requests = nil
+					for i := 0; i < n; i++ {
+						d := make([]byte, 32)
+						d[0] = 7
+						g.Requests = append(g.Requests, mkSignReq(fmt.Sprintf("Wallet 1/acct-%d", i), nil, pat(byte(9+i)), d))
+					}
+				}})
+			}
+		case *pb.SignBeaconAttestationsRequest:
+			for _, n := range c20BatchSizes {
+				n := n
+				ms = append(ms, c20Mut{Desc: fmt.Sprintf("%s.requests=%d well-formed entries", r.Name, n), Set: func(m protoreflect.Message) {
+					g := m.Interface().(*pb.SignBeaconAttestationsRequest)
+					tmpl := g.GetRequests()[0]
+					g.Requests = nil
+					for i := 0; i < n; i++ {
+						q := proto.Clone(tmpl).(*pb.SignBeaconAttestationRequest)
+						q.Id = &pb.SignBeaconAttestationRequest_Account{Account: fmt.Sprintf("Wallet 1/acct-%d", i)}
+						g.Requests = append(g.Requests, q)
+					}
 				}})
 			}
 		}
